@@ -136,8 +136,18 @@ func execC06Ref(c *Case, ref []fmts.Item, haveRef bool) *Verdict {
 		cfg.Ext = f.Ext
 		path, cleanup := Disk.Materialise(&cfg, c.Input)
 		defer cleanup()
-		out := sim.Consume(f.File(path), never, len(ref)+sim.LiveB)
-		return diffVerdict("C06.file."+cfg.Kind, f.Name, ref, out)
+		seq := f.File(path)
+		out := sim.Consume(seq, never, len(ref)+sim.LiveB)
+		if v := diffVerdict("C06.file."+cfg.Kind, f.Name, ref, out); v != nil || cfg.Kind == "fifo" {
+			return v
+		}
+		// the iterator VALUE File returned, ranged over a second time, reads the file again
+		out = sim.Consume(seq, never, len(ref)+sim.LiveB)
+		if v := diffVerdict("C06.file."+cfg.Kind, f.Name, ref, out); v != nil {
+			v.Detail = "second range over the same iterator value: " + v.Detail
+			return v
+		}
+		return nil
 	case "C06.unopenable":
 		cfg := *c.File
 		cfg.Ext = f.Ext
@@ -249,6 +259,49 @@ func cutProbes(ctx *core.Ctx, f *fmts.Format, input []byte, seq []int) {
 	}
 }
 
+// runC06Giant: a file of tens of MiB (its .gz form beyond 8 MiB), where size-driven
+// strategies (bigger buffers, read-ahead helpers, mmap-like paths) switch on. Only
+// File plain / .gz against the one-shot decode; item sequences are compared by hash.
+func runC06Giant(ctx *core.Ctx, r *core.Rng) {
+	f := core.Pick(r, []*fmts.Format{fmts.Fasta, fmts.Fastq})
+	const alpha = "ABCDEFGHIJKLMNOPQRSTUVWXYZabcdefghijklmnopqrstuvwxyz0123456789" // about 6 bits per byte: stays large when compressed
+	var b bytes.Buffer
+	total := r.Range(11<<20, 14<<20)
+	for i := 0; b.Len() < total; i++ {
+		l := r.Range(20000, 60000)
+		if f == fmts.Fasta {
+			fmt.Fprintf(&b, ">r%d\n", i)
+			b.Write(r.Bytes(l, alpha))
+			b.WriteString("\n")
+		} else {
+			fmt.Fprintf(&b, "@r%d\n", i)
+			b.Write(r.Bytes(l, alpha))
+			b.WriteString("\n+\n")
+			b.Write(r.Bytes(l, alpha))
+			b.WriteString("\n")
+		}
+	}
+	input := b.Bytes()
+	ref, ok := refOf(f, input)
+	ctx.Eval()
+	if !ok {
+		return
+	}
+	ctx.Stats.Inc("probe/giant_file_over_8MiB_also_when_compressed")
+	ctx.EvU(uint64(len(input)), uint64(len(ref)))
+	for _, cfg := range []sim.FileCfg{{Kind: "plain"}, {Kind: "gz", Level: 1}} {
+		cfg := cfg
+		c := &Case{Clause: "C06.file", Format: f.Name, Input: input, File: &cfg}
+		v := execC06Ref(c, ref, true)
+		ctx.Eval()
+		ctx.Seen(core.HashBytes(input[:4096]) ^ core.HashString("giant/"+cfg.Kind))
+		if v != nil {
+			ctx.EvS(v.Key)
+			report(ctx, c, v)
+		}
+	}
+}
+
 // oddNames are base names with a conventional meaning elsewhere or awkward bytes.
 var oddNames = []string{"-", "-", "~", "--help", "a b", "x.gz", "x.gz.y", "\u00fcn\u00ef", "con", ".hidden", "a:b", "%41"}
 
@@ -282,6 +335,9 @@ func RunC06(ctx *core.Ctx, r *core.Rng) {
 		kind = "random"
 	}
 	doc := f.Gen(r, sz)
+	if r.Chance(0.00025) {
+		runC06Giant(ctx, r)
+	}
 	if r.Chance(0.012) { // a line within 3 bytes of 64 KiB, in an otherwise tiny document
 		doc, sz, kind = fmts.Boundary64K(r, f), fmts.Large, "wellformed"
 		ctx.Stats.Inc("probe/line_within_3_bytes_of_64KiB")
